@@ -389,12 +389,17 @@ def work(task):
             ('split', 'split(hs, t(0), t(1))', [P(0), P(1)]), ('pop', 'pop(hl, t(0))', [P(0)]), ('insert', 'insert(hl, t(0), t(1))', [P(0), P(1)]),
             ('round', 'round(t(0), t(1))', [P(0), P(1)]), ('min', 'min(t(0), t(1), t(2))', [P(0), P(1), P(2)]), ('dict-get-default', 'get({}, "k", t(0))', [P(0)]),
             ('if-in-arg', 'get(hd, "a", t(0) if t(1) else t(2))', [('if', P(1), P(0), P(2))]),
+            ('full-list-plus', 'big + t(0)', [P(0)]), ('full-list-plus-list', 'big + [t(0)]', [P(0)]), ('full-list-compound', 'x = [1]; x += [t(0), t(1)]', [P(0), P(1)]),
+            ('full-list-push', 'push(big, t(0))', [P(0)]), ('full-list-index', 'big[t(0)] = t(1)', [P(0), P(1)]), ('full-dict-index', 'bigd[t(0)] = t(1)', [P(0), P(1)]),
+            ('long-args', 'f(' + ', '.join(f't({i})' for i in range(6)) + ', ' + ', '.join(str(i) for i in range(40)) + ')', [P(i) for i in range(6)]),
+            ('long-list', '[' + ', '.join(str(i) for i in range(40)) + ', t(0), t(1)]', [P(0), P(1)]),
         ]
         for label, text, seq in real_calls:
             mt = ('seq', seq)
             n = _count(mt)
             for combo in itertools.product(('truthy', 'falsy', 'raise'), repeat=n):
-                run_case(res, 'real-builtin:' + label, text, mt, dict(enumerate(combo)), Univ, extra=dict(extra, hl=[D(1), D(2)], hd={'a': D(1)}), strict=True)
+                run_case(res, 'real-builtin:' + label, text, mt, dict(enumerate(combo)), Univ,
+                         extra=dict(extra, hl=[D(1), D(2)], hd={'a': D(1)}, big=[0] * 10000, bigd={str(i): 0 for i in range(10000)}), strict=True)
             res.count('programs')
         for label, text, mt in hand:
             n = _count(mt)
